@@ -30,6 +30,7 @@ type HarnessCfg struct {
 	MaxSecs  int      `json:"max_secs,omitempty"` // wall-clock budget; exceeding it is INCONCLUSIVE
 	Reverse  bool     `json:"reverse_maps,omitempty"`
 	MaxSteps int      `json:"max_steps,omitempty"`
+	NoCross  bool     `json:"no_cross,omitempty"` // skip the thorough tier's re-decision by a second solver
 }
 
 type PropCfg struct {
@@ -258,6 +259,7 @@ func cmdCheck(args []string) int {
 	}
 	var results []hres
 	var problems []string
+	crossRuns, crossDisagree := 0, 0
 	for _, h := range cfg.Harnesses {
 		if *only != "" && h.Name != *only {
 			continue
@@ -297,6 +299,29 @@ func cmdCheck(args []string) int {
 			continue
 		}
 		results = append(results, hres{h, st, time.Since(t1).Seconds()})
+		// thorough tier: the whole harness is decided again by a second solver; the two
+		// explorations must agree on paths, completed paths and violated labels
+		if tier == 1 && !h.NoCross && *only == "" || os.Getenv("VERIF_CROSS") != "" {
+			other := "z3"
+			if solver == "z3" {
+				other = "cvc5"
+			}
+			x2 := &exec.Explorer{P: p, Harness: fn, NWorker: nw, Solver: other, Timeout: to, Tier: tier, Seed: seed,
+				KFOpen: kfOpen, Reverse: h.Reverse, NCases: 0, MaxStep: h.MaxSteps, Progress: os.Getenv("VERIF_PROGRESS") != ""}
+			if h.MaxSecs > 0 {
+				x2.Deadline = time.Now().Add(time.Duration(2*h.MaxSecs) * time.Second)
+			}
+			st2, err := x2.Run()
+			crossRuns++
+			if err != nil {
+				problems = append(problems, h.Name+": cross-solver run: "+err.Error())
+			} else if st2.Paths != st.Paths || st2.PathsOK != st.PathsOK || labelSet(st2) != labelSet(st) {
+				crossDisagree++
+				problems = append(problems, fmt.Sprintf("%s: cross-solver disagreement: %s paths=%d ok=%d violations=%s vs %s paths=%d ok=%d violations=%s",
+					h.Name, solver, st.Paths, st.PathsOK, labelSet(st), other, st2.Paths, st2.PathsOK, labelSet(st2)))
+			}
+			fmt.Fprintf(os.Stderr, "  %-34s re-decided by %s: paths=%d ok=%d queries=%d\n", h.Name, other, st2.Paths, st2.PathsOK, st2.Queries)
+		}
 		fmt.Fprintf(os.Stderr, "  %-34s paths=%d ok=%d queries=%d (unsat %d) violations=%d inconclusive=%d %.1fs\n",
 			h.Name, st.Paths, st.PathsOK, st.Queries, st.QUnsat, len(st.Violations), len(st.Inconclusive), time.Since(t1).Seconds())
 	}
@@ -499,6 +524,8 @@ func cmdCheck(args []string) int {
 		"reach_labels":                  reachAll,
 		"known_findings_hit":            kfSeen,
 		"problems":                      problems,
+		"cross_solver_runs":             crossRuns,
+		"cross_solver_disagreements":    crossDisagree,
 		"load_s":                        loadS,
 		"exhaustive":                    len(problems) == 0,
 		"rule":                          "states = completed symbolic paths (each decided for all values by the solver); transitions = decision edges; obligations = assertion queries PC∧¬assert posed, discharged = those answered unsat",
@@ -524,6 +551,19 @@ func cmdCheck(args []string) int {
 			prop, *tierS, states, obligations, discharged, queries, validated, time.Since(t0).Seconds())
 	}
 	return exit
+}
+
+func labelSet(st *exec.Stats) string {
+	m := map[string]bool{}
+	for _, v := range st.Violations {
+		m[v.Label+"|"+v.KF] = true
+	}
+	var ks []string
+	for k := range m {
+		ks = append(ks, k)
+	}
+	sort.Strings(ks)
+	return "[" + strings.Join(ks, ",") + "]"
 }
 
 func firstNonEmpty(a, b string) string {
